@@ -140,8 +140,6 @@ fn update_stages_blocks(
                     assert(stmt_call(&st, c));
                     assert(calls_at(&b0, j, c));
                     lemma_block_calls(&b0, c);
-                    assert(sub_blocks(&st) =~= Seq::<naga::Block>::empty());
-                    lemma_subs_size_zero(&b0, j);
                 }»
                 if visited.insert(*function) {
                     «let ghost v2 = visited@;
@@ -165,7 +163,7 @@ fn update_stages_blocks(
                 assert(n + fn_potential(module, visited@) <= fn_potential(module, v0) + stmts_size(&b0, j + 1));»
             }
             _ => «{
-                proof { assert(sub_blocks(&st) =~= Seq::<naga::Block>::empty()); lemma_subs_size_zero(&b0, j); }
+                // (nothing is walked here; whatever the statement nests only makes the bound larger)
                 assert(n + fn_potential(module, visited@) <= fn_potential(module, v0) + stmts_size(&b0, j + 1));»
                 ()
             «}»,
